@@ -92,7 +92,11 @@ func Harness_C15_history() {
 				},
 				IsEntityInMessage: true,
 			}
-			for j := 0; j < M; j++ {
+			m := M
+			if vr.Param("MV", 0) == 1 { // a symbolic number of stops (0..M) per update
+				m = hConcretizeJ(vr.Int(vr.T("feed", f, ".trip", n, ".nstops"), 0, M), 0, M)
+			}
+			for j := 0; j < m; j++ {
 				sid := vr.Str(vr.T("feed", f, ".trip", n, ".stop", j))
 				trip.StopTimeUpdates = append(trip.StopTimeUpdates, gtfs.StopTimeUpdate{StopID: &sid})
 			}
@@ -191,4 +195,13 @@ func Harness_C15_history() {
 		}
 		vr.Assert("C15.membership", vr.Or(any...))
 	}
+}
+
+func hConcretizeJ(x, lo, hi int) int {
+	for k := lo; k < hi; k++ {
+		if x == k {
+			return k
+		}
+	}
+	return hi
 }
